@@ -12,7 +12,7 @@ META = dict(
                     'every verb of the two handlers plus an unknown verb, each with its accepted argument count(s) and count-1/count+1, integer arguments symbolic over [-2^31, 2^31] rendered in decimal; '
                     'long SETFH: 64 channel pairs of 6- and 7-digit kHz values in one datagram through a socket stub that honours the receive size'),
     stubs=['fake socket (recvfrom honours the size argument for concrete datagrams; for symbolic ropes the length is computed from digit counts and an over-long datagram is an obligation)', 'logging', 'random.randint -> value of documented range',
-           'time.sleep', 'str/int/split/join/strip on decimal ropes'],
+           'time.sleep (records the request; ValueError on a negative duration as CPython)', 'str/int/split/join/strip on decimal ropes'],
     outside=['arguments that are not decimal integers (C14)', 'datagrams without CMD prefix other than the probes listed', 'trxcon command composition through snprintf/vsnprintf (varargs, not encoded): command texts are written by the harness from the format strings of trx_if.c'],
     assumptions=['transition table of DESIGN.md appendix A (transcribed in vf/checks/c05.py) is the oracle'],
     explanation='each command goes through the real recvfrom -> decode -> verify_req -> prepare_req -> parse_cmd -> send_response; obligations: exactly one reply to the sender, text RSP <verb> <status> <args> [results]\\\\0, status and post-state per the table for all argument values')
@@ -56,10 +56,7 @@ def same(a, b):
 
 def mk_state(ctx, T):
     net, log, rnd = env.std_env(ctx, T)
-    class _Time:
-        slept = []
-        def sleep(self, x): _Time.slept.append(x)
-    T.ctrl_if.time = _Time()
+    T.ctrl_if.time = env.FakeTime()
     other = mk_trx(ctx, T, 'OTHER', 6700)
     other.running = bool(ctx.bool('other.running')); other._tx_freq = ctx.int('other.txf', 0, R) * 1000
     has_pm = bool(ctx.bool('has_pm'))
@@ -75,6 +72,7 @@ def mk_state(ctx, T):
     for a in ('toa256_rand_threshold', 'rssi_rand_threshold', 'ci_rand_threshold', 'burst_drop_amount'): setattr(t, a, ctx.int('pre.' + a, 0, R))
     t.burst_drop_period = ctx.int('pre.burst_drop_period', 1, R)
     t.fake_rssi_enabled = ctx.bool('pre.fake_rssi'); t.rf_muted = ctx.bool('pre.muted')
+    t.ctrl_if.rsp_delay_ms = ctx.int('pre.rsp_delay_ms', -R, R)           # whatever an earlier FAKE_TRXC_DELAY left behind
     return t, other, pm, net, rnd
 
 
